@@ -22,6 +22,24 @@ fn c18_native_arc_iter_complete() {
             (0..n_k).map(|i| (RouterKey::new(KeyIdentifier::from([i as u8 + 1; 20]), Asn::from_u32(64600 + i), RouterKeyInfo::new(Bytes::from(vec![i as u8; 8])).unwrap()), info())),
             (0..n_a).map(|i| (Aspa::new(Asn::from_u32(64700 + i), ProviderAsns::try_from_iter([Asn::from_u32(64800 + i)]).unwrap()), info())),
             None);
+        {
+            let mut it = Arc::new(new.clone()).arc_iter();
+            let (mut so, mut sk, mut sa) = (0u32, 0u32, Vec::new());
+            let mut steps = 0;
+            while let Some((item, _)) = it.next_with_info() {
+                steps += 1;
+                if steps > 50 { break }
+                match item {
+                    PayloadRef::Origin(_) => so += 1,
+                    PayloadRef::RouterKey(_) => sk += 1,
+                    PayloadRef::Aspa(x) => sa.push(x.customer.into_u32()),
+                }
+            }
+            sa.sort();
+            if so != n_o || sk != n_k || sa != (0..n_a).map(|i| 64700 + i).collect::<Vec<u32>>() {
+                bad.push(format!("snapshot with {} origins / {} router keys / {} ASPAs: iterator yields {} / {} / ASPA customers {:?}", n_o, n_k, n_a, so, sk, sa));
+            }
+        }
         let delta = match PayloadDelta::construct(&old, &new, Serial::from(1)) { Some(d) => Arc::new(d), None => { bad.push(format!("{}/{}/{}: no delta", n_o, n_k, n_a)); continue } };
         let mut iter = delta.arc_iter();
         let (mut o, mut k, mut a) = (Vec::new(), Vec::new(), Vec::new());
